@@ -6,8 +6,10 @@ Open Scope N_scope.
 
 (* The interface to C11 (domain matching), spelled out: for every domain set the builder registered — array index i,
    key (1 full, 2 suffix, 3 keyword, 4 regex), patterns — bit i of the bitmap the domain matcher returns for the
-   packet's domain (no lookup and no bit when the domain is empty; bit read as `i/32 < len && word>>(i%32)&1`) says
-   whether one of the patterns holds for the domain. *)
+   packet's domain AS IT ARRIVES (no lookup and no bit when that raw name is empty, exactly as Match tests
+   `domain != ""` before calling MatchDomainBitmap; bit read as `i/32 < len && word>>(i%32)&1`) says whether one of
+   the patterns holds for the NORMALISED name (lower case, one trailing dot stripped: MatchDomainBitmap normalises
+   inside).  A name that normalises to the empty name ("." ) satisfies no domain pattern in the spec. *)
 Definition C01_domain_oracle_agrees (p : program) (dm : string -> list N) (pk : packet) : Prop :=
   forall b, lower_program p = Ok b ->
   forall i key vals, In (i, (key, vals)) (b_domsets b) ->
@@ -15,7 +17,7 @@ Definition C01_domain_oracle_agrees (p : program) (dm : string -> list N) (pk : 
     | Some w => bm_bit w i
     | None => false
     end
-    = existsb (fun s => domain_holds (dkind_of_key key) s (p_domain pk) (p_regex_hits pk)) vals.
+    = existsb (fun s => domain_holds (dkind_of_key key) s (normalise (p_domain pk)) (p_regex_hits pk)) vals.
 
 (* REFINEMENT.  For every well-formed routing program (any number of rules, &&-conditions, key groups, values,
    negations, must_ prefixes, (must)/(mark) parameters, must_rules, any fallback) and every packet description, the
@@ -72,11 +74,12 @@ Proof. exact C01_must_sticky_proof. Qed.
 Print Assumptions C01_must_sticky.
 
 (* Non-vacuity: a three-rule program using all ten functions, negation, must_rules, a must_ prefix and a mark is well
-   formed, lowers to 13 match-sets, and is decided at rule 2 (with the must flag carried from rule 1), at rule 3 and
+   formed, lowers to 13 match-sets, and is decided at rule 2 (with the must flag carried from rule 1; the name arrives
+   in mixed case with a trailing dot), at rule 3 and
    at the fallback by three packets. *)
 Example C01_nonvacuous :
   wf_program ex_program = true /\
-  decide ex_program (ex_pk 53 "www.example.com" 1 0xffff01020304 (repeat 0 16) 0) = (2, 16, true) /\
+  decide ex_program (ex_pk 53 "WWW.Example.COM." 1 0xffff01020304 (repeat 0 16) 0) = (2, 16, true) /\
   decide ex_program (ex_pk 53 "www.example.com" 0 0xffff0a010203 ([99; 117; 114; 108] ++ repeat 0 12) 8) = (1, 0, true) /\
   decide ex_program (ex_pk 80 "" 0 0xffff01020304 (repeat 0 16) 0) = (0, 0, false) /\
   (exists b, lower_program ex_program = Ok b /\ List.length (b_rules b) = 13%nat).
